@@ -672,7 +672,14 @@ func (c *Codec) Decode(src []byte) (dst framer.Frame, err error) {
 // DecodeStream decodes a frame from the given io reader.
 func (c *Codec) DecodeStream(reader io.Reader) (framer.Frame, error) {
 	c.processUpdates()
-	c.panicIfNotUpdated("Decode")
+	if c.mu.seqNum < 1 {
+		// The source is remote input: a data frame that arrives before the channel set
+		// was negotiated must be rejected, not crash the process.
+		return framer.Frame{}, errors.Wrap(
+			validate.ErrValidation,
+			"[framer.codec] - dynamic codec was not updated before the first call to Decode",
+		)
+	}
 	c.reader.Reset(reader)
 
 	var (
